@@ -71,7 +71,12 @@ class Family:
 
     # ---- evaluation
     def evaluate(self, cases, tag="cases"):
-        obs_all = [self.run_impl(c) for c in cases]
+        obs_all = []
+        for c in cases:
+            try:
+                obs_all.append(self.run_impl(c))
+            except Exception as ex:      # any exception escaping the implementation is an observation
+                obs_all.append({"err": type(ex).__name__ + ": " + str(ex)[:200]})
         good = [i for i, o in enumerate(obs_all) if not self.is_err(o)]
         terms = [self.coq_case(cases[i], obs_all[i]) for i in good]
         funcs = [self.corr, self.oracle] + list(self.dom_funcs.values())
